@@ -162,6 +162,22 @@ func c09Cases(level int) []SCase {
 			}
 		}
 	}
+	// two schemas that map to the same Go type name (inline S.a.b vs definition "SAB", two definitions differing only in
+	// case) and are identical except for their defaults: each must keep its own default
+	for i, pair := range [][2]any{{3, 10}, {"x", "y"}, {true, false}, {A{1}, A{2, 3}}} {
+		typ := []string{"integer", "string", "boolean", "array"}[i]
+		mk := func(d any) J {
+			p := J{"type": typ, "default": d}
+			if typ == "array" {
+				p["items"] = J{"type": "integer"}
+			}
+			return J{"type": "object", "properties": J{"n": p, "keep": J{"type": "string"}}}
+		}
+		cases = append(cases, SCase{ID: fmt.Sprintf("C09/same-type-name/inline-vs-def/%s", typ), Cfg: baseCfg(), Axes: map[string]string{"pos": "same-type-name", "leaf": typ, "kind": typ},
+			Schema: J{"type": "object", "properties": J{"a": J{"type": "object", "properties": J{"b": mk(pair[0])}}, "viaRef": J{"$ref": "#/$defs/SAB"}}, "$defs": J{"SAB": mk(pair[1])}}})
+		cases = append(cases, SCase{ID: fmt.Sprintf("C09/same-type-name/two-defs/%s", typ), Cfg: baseCfg(), Axes: map[string]string{"pos": "same-type-name", "leaf": typ, "kind": typ},
+			Schema: J{"type": "object", "properties": J{"x": J{"$ref": "#/$defs/limits"}, "y": J{"$ref": "#/$defs/Limits"}}, "$defs": J{"limits": mk(pair[0]), "Limits": mk(pair[1])}}})
+	}
 	return cases
 }
 
